@@ -257,6 +257,11 @@ def _npabs(ex, e, args, kwargs, p):
     return [(app("ABS", asV(args[0])), p)]
 
 
+@lib("np.signbit", "A-numpy-arith")
+def _npsignbit(ex, e, args, kwargs, p):
+    return [(pred("np_signbit", asV(args[0])), p)]
+
+
 @lib("np.all", "A-numpy-array")
 def _npall(ex, e, args, kwargs, p):
     return [(truthy(app("np_all", asV(args[0]))), p)]
